@@ -491,6 +491,9 @@ class Normalizer:
 
     def n_Call(self, e: ast.Call, b):
         f = e.func
+        if isinstance(f, ast.Name) and f.id in ("__sa_takewhile__", "__sa_dropwhile__", "__sa_groupby__"):      # produced by sa/desugar.py
+            args, kwargs = self._args(e)
+            return T.mk_call("itertools." + f.id.strip("_")[3:], args, kwargs)
         fs = self._format_call_as_fstring(e)
         if fs is not None:
             return fs
@@ -664,6 +667,8 @@ class Normalizer:
                 continue
             if isinstance(s, ast.Return):
                 return self.norm(s.value) if s.value is not None else T.NONE
+            if isinstance(s, ast.Expr) and isinstance(s.value, ast.YieldFrom) and i == len(stmts) - 1:
+                return self.norm(s.value.value)          # a generator that only delegates: its value is what it delegates to
             if isinstance(s, ast.If):
                 c = T.as_bool(self.norm(s.test, True))
                 saved = dict(self.env)
